@@ -232,6 +232,11 @@ func runC39(c *core.Ctx) error {
 	peaks := map[string]any{}
 	var firstTrace []event
 	var firstCfg burstCfg
+	type tracedBurst struct {
+		evs []event
+		cfg burstCfg
+	}
+	var traced []tracedBurst
 	var bmu sync.Mutex
 	var bjobs []func() error
 	for bi, b := range bursts {
@@ -313,6 +318,9 @@ func runC39(c *core.Ctx) error {
 			if b.abortWait && !resp.Aborted {
 				return fmt.Errorf("vacuous: burst %s: the server did not tear down the abandoned connection, no memory wait was aborted", b.name)
 			}
+			if !b.abortWait {
+				traced = append(traced, tracedBurst{evs, b})
+			}
 			if firstTrace == nil && !b.abortWait && !b.releaseAll {
 				firstTrace, firstCfg = evs, b
 				for _, e := range evs {
@@ -334,12 +342,31 @@ func runC39(c *core.Ctx) error {
 	c.Set("distinct_nontrivial", len(peaks))
 
 	// 3. binding self-test: one more handler than the limit allows must be rejected
-	if firstTrace != nil {
-		bad := corruptBurst(firstTrace, firstCfg.cap)
-		if bad == nil {
-			return fmt.Errorf("binding self-test impossible: no enter event right after an exit at the cap")
+	if len(traced) > 0 {
+		var bad []event
+		cfg := firstCfg
+		for _, t := range traced {
+			if bad = corruptBurst(t.evs, t.cfg.cap); bad != nil {
+				cfg = t.cfg
+				break
+			}
 		}
-		v, err := validateTraceBFS(c, "TraceRpcLimits", "TraceRpcLimits.cfg", firstCfg.consts(), toNDJSON(bad))
+		if bad == nil {
+			// no enter right after an exit at the cap in any history: drop the first exit instead
+			// (its handler then still counts as running when the next one enters at the cap)
+			t := traced[0]
+			cfg = t.cfg
+			for i, e := range t.evs {
+				if e.str("ev") == "exit" {
+					bad = append(append([]event{}, t.evs[:i]...), t.evs[i+1:]...)
+					break
+				}
+			}
+		}
+		if bad == nil {
+			return fmt.Errorf("binding self-test impossible: no recorded history with an exit event")
+		}
+		v, err := validateTraceBFS(c, "TraceRpcLimits", "TraceRpcLimits.cfg", cfg.consts(), toNDJSON(bad))
 		if err != nil {
 			return err
 		}
